@@ -319,3 +319,9 @@ class VGen(V):
 
   def __init__(self, it, target, elt, env):
     self.it, self.target, self.elt, self.env = it, target, elt, env
+
+
+class VPArr(VReal):
+  """A numpy array in the pointwise view (A3): the value of ONE generic element.  Subscripting it (`a[:, k - 1]`,
+  `a[:, np.newaxis]`) yields that generic element; arithmetic is the scalar arithmetic of VReal."""
+  __slots__ = ()
